@@ -154,8 +154,14 @@ func (it *Interp) intBin(fr *frame, op token.Token, tx, ty *TInfo, x, y *Term) V
 	case token.SUB:
 		return mkBin(OpSub, x, y)
 	case token.MUL:
+		if it.spec > 0 && x.op != OpConst && y.op != OpConst {
+			panic(specFail{"symbolic multiplication"})
+		}
 		return mkBin(OpMul, x, y)
 	case token.QUO, token.REM:
+		if it.spec > 0 && (x.op != OpConst || y.op != OpConst) {
+			panic(specFail{"symbolic division"})
+		}
 		if y.op == OpConst {
 			if y.c == 0 {
 				it.goPanicf(fr, "integer divide by zero")
@@ -614,25 +620,32 @@ func (it *Interp) runesOf(fr *frame, s Str, to *TInfo) Value {
 // whether the lead byte is ASCII; a non-ASCII symbolic lead byte is concretised.
 func (it *Interp) decodeRune(fr *frame, b []Value) (*Term, int) {
 	c0 := b[0].(*Term)
-	if c0.op != OpConst {
-		if it.branch(fr, mkBin(OpUlt, c0, constBytes[0x80])) {
-			return mkResize(c0, 32, false), 1
-		}
-	} else if c0.c < 0x80 {
+	if c0.op == OpConst && c0.c < 0x80 {
 		return mkConst(32, c0.c), 1
 	}
-	// multi-byte: concretise up to 4 bytes
+	allConst := true
+	n := len(b)
+	if n > 4 {
+		n = 4
+	}
 	var buf [4]byte
-	n := 0
-	for n < 4 && n < len(b) {
-		buf[n] = byte(it.concreteInt(fr, b[n].(*Term), "utf8 decode"))
-		n++
-		if utf8.FullRune(buf[:n]) {
+	for i := 0; i < n; i++ {
+		t := b[i].(*Term)
+		if t.op != OpConst {
+			allConst = false
 			break
 		}
+		buf[i] = byte(t.c)
 	}
-	r, sz := utf8.DecodeRune(buf[:n])
-	return mkConst(32, uint64(r)), sz
+	if allConst {
+		r, sz := utf8.DecodeRune(buf[:n])
+		return mkConst(32, uint64(r)), sz
+	}
+	// symbolic bytes: run the real decoder from its SSA form
+	fn := it.p.utf8Decode()
+	res := it.call(fr, FuncV{fn: fn}, []Value{Str{b: b, obj: constStrObj}}).(Tuple)
+	sz := int(it.concreteInt(fr, res[1].(*Term), "rune size"))
+	return res[0].(*Term), sz
 }
 
 // checkView records an unsafe-widening event when *to.elem does not fit in what p points into.
@@ -733,6 +746,9 @@ func (it *Interp) boundsCheck(fr *frame, idx *Term, n int, signed bool) {
 		}
 		return
 	}
+	if idx.w < 64 && uint64(n) > mask(idx.w) {
+		return // the index type cannot exceed the length
+	}
 	in := mkBin(OpUlt, idx, mkConst(idx.w, uint64(n)))
 	if !it.branch(fr, in) {
 		it.goPanicf(fr, "index out of range [symbolic] with length %d", n)
@@ -747,6 +763,7 @@ func (it *Interp) indexAddr(fr *frame, ci *cinstr, x Value, idx *Term) Value {
 	case Slice:
 		arr, obj = xv.a, xv.obj
 	case Ptr:
+		xv = it.concretePtr(fr, xv)
 		if xv.cell == nil {
 			it.goPanicf(fr, "invalid memory address or nil pointer dereference (index of nil *array)")
 		}
@@ -1004,9 +1021,11 @@ func (it *Interp) mapDelete(fr *frame, m *MapObj, k Value) {
 func (it *Interp) rangeIter(fr *frame, x Value) Value {
 	switch xv := x.(type) {
 	case Str:
-		return &IterV{str: xv, isStr: true}
+		it.objSeq++
+		return &IterV{str: xv, isStr: true, id: it.objSeq}
 	case *MapObj:
-		iv := &IterV{m: xv}
+		it.objSeq++
+		iv := &IterV{m: xv, id: it.objSeq}
 		if xv != nil {
 			for i := range xv.entries {
 				if !xv.entries[i].deleted {
@@ -1043,6 +1062,9 @@ func (it *Interp) choosePerm(fr *frame, n int) []int {
 }
 
 func (it *Interp) next(fr *frame, ins *ssa.Next, iv *IterV, ti *TInfo) Value {
+	if it.spec > 0 && iv.id <= it.specBase {
+		panic(specFail{"advance of an outer iterator"})
+	}
 	if iv.isStr {
 		if iv.pos >= len(iv.str.b) {
 			return Tuple{tFalse, mkConst(64, 0), mkConst(32, 0)}
